@@ -39,9 +39,16 @@ open TraitsVerif
 abbrev Id := Nat
 abbrev Key := Int
 
-/-- Scalar traits of a node: `value` and `aux` (`Int`). -/
+/-- Scalar traits of a node: `value` and `aux` (`Int`, comparison mode
+equality), and three `Any` traits declared with
+`comparison_mode=ComparisonMode.none / identity / equality`.  What the heap
+records for them is the key the notification decision is made on: for `xn` and
+`xi` a code of the *object* held (equal-but-distinct objects such as `1`, `1.0`,
+`True` have different codes), for `xe` the `==`-class of the value (a getter over
+an equality-compared dependency must not distinguish equal values: user
+contract). -/
 inductive Field where
-  | value | aux
+  | value | aux | xn | xi | xe
   deriving DecidableEq, Repr
 
 /-- One `HasTraits` object of the dependency graph:
@@ -52,6 +59,9 @@ insensitive; the harness canonicalises). -/
 structure Obj where
   value : Int := 0
   aux : Int := 0
+  xn : Int := 0
+  xi : Int := 0
+  xe : Int := 0
   inst : Option Id := none
   kids : List Id := []
   byname : List (Key × Id) := []
@@ -78,6 +88,9 @@ inductive Content where
 def Obj.get (ob : Obj) : Slot → Content
   | .scalar .value => .int ob.value
   | .scalar .aux => .int ob.aux
+  | .scalar .xn => .int ob.xn
+  | .scalar .xi => .int ob.xi
+  | .scalar .xe => .int ob.xe
   | .inst => .ref ob.inst
   | .kids => .ids ob.kids
   | .byname => .dict ob.byname
@@ -111,6 +124,9 @@ def Write.content : Write → Content
 def Obj.put (ob : Obj) : Write → Obj
   | .scalar .value v => { ob with value := v }
   | .scalar .aux v => { ob with aux := v }
+  | .scalar .xn v => { ob with xn := v }
+  | .scalar .xi v => { ob with xi := v }
+  | .scalar .xe v => { ob with xe := v }
   | .inst t => { ob with inst := t }
   | .kids l => { ob with kids := l }
   | .byname d => { ob with byname := d }
@@ -133,9 +149,19 @@ structure Mutation where
 def apply (m : Mutation) (h : Heap) : Heap :=
   fun i => if i = m.obj then (h i).put m.w else h i
 
-/-- Does the change notify anybody at all? -/
+/-- `comparison_mode=ComparisonMode.none`: every assignment notifies
+(ctraits.c:2437 `changed = flags & TRAIT_COMPARISON_MODE_NONE`). -/
+def alwaysNotifies : Slot → Bool
+  | .scalar .xn => true
+  | _ => false
+
+/-- Does the change notify anybody at all?  ctraits.c:2437, 2563-2565: mode
+none always, otherwise a different object; for mode equality the notifiers
+then drop the event when `old == new` (observation/_has_traits_helpers.py:118-142
+`ctrait_prevent_event`, trait_notifiers.py `_change_accepted`) — the heap keys
+are chosen accordingly, see `Field`. -/
 def changed (h : Heap) (m : Mutation) : Bool :=
-  m.inplace || decide (content h m.obj m.w.slot ≠ m.w.content)
+  m.inplace || alwaysNotifies m.w.slot || decide (content h m.obj m.w.slot ≠ m.w.content)
 
 /-! ## Observe expressions (the fragment `a.b.….leaf`, every link notifying) -/
 
@@ -372,8 +398,8 @@ def blank (h : Heap) (r : Id) : Heap := fun i => if i = r then {} else h i
 
 /-- Assignment order of `__getstate__` / `copyable_trait_names` (definition order). -/
 def rootWrites (ob : Obj) : List Write :=
-  [.scalar .value ob.value, .scalar .aux ob.aux, .inst ob.inst, .kids ob.kids,
-   .byname ob.byname, .tags ob.tags]
+  [.scalar .value ob.value, .scalar .aux ob.aux, .scalar .xn ob.xn, .scalar .xi ob.xi,
+   .scalar .xe ob.xe, .inst ob.inst, .kids ob.kids, .byname ob.byname, .tags ob.tags]
 
 def runMuts (P : Env Val) (s : St Val) (ms : List Mutation) : St Val :=
   ms.foldl (mutate P) s
